@@ -7,6 +7,7 @@ import (
 	"fmt"
 	"os"
 	"reflect"
+	"strings"
 	"time"
 
 	"github.com/vimeo/dials"
@@ -246,6 +247,11 @@ func (s *Set) registerFlags(tmpl reflect.Value, ptyp reflect.Type) error {
 		// still be registered
 		if dft, ok := sf.Tag.Lookup(common.DialsFlagTagName); ok && (dft == "-") {
 			continue
+		}
+
+		// the flag package panics on such names
+		if strings.HasPrefix(name, "-") || strings.Contains(name, "=") {
+			return fmt.Errorf("invalid flag name %q for field %s: begins with - or contains =", name, sf.Name)
 		}
 
 		ft := sf.Type
